@@ -1,7 +1,9 @@
-"""C09 — GET_DESCRIPTOR returns exactly the requested descriptor bytes (unit level: all descriptor handlers).
+"""C09 — GET_DESCRIPTOR returns exactly the requested descriptor bytes.
 
-The integration run through the full device (StandardRequestHandler inside USBDevice) belongs to the g9 host-BFM
-harness; this module drives the handlers the way StandardRequestHandler's GET_DESCRIPTOR state does."""
+Unit level (subs `handlers`, `gen-collections`): the descriptor handlers driven the way StandardRequestHandler's
+GET_DESCRIPTOR state drives them.  Integration (sub `device`): a whole USBDevice with the standard control endpoint
+read by a closed-loop host over UTMI, including transfers the host abandons -- the continuation offset and its rewind
+live in StandardRequestHandler, outside the handlers."""
 
 from hypothesis import strategies as st
 
@@ -21,6 +23,11 @@ ASSUMPTIONS = [
     "descriptor types 1..15 (type 0 only as a non-existent request), indices 0..255, lengths 1..300; generated "
     "collections always contain the 18-byte device descriptor",
     "runtime descriptors are StreamSerializer subclasses with constant data (like ECP5FlashUIDStringDescriptor)",
+    "sub `device`: full-speed device on a bare UTMI bus at address 0 (never SET_ADDRESSed), UTMI receive soundness "
+    "(DESIGN.md §3), host waits the 18-bit-time response window, ACKs only CRC-valid data packets, retries NAKed INs; "
+    "the host may abandon a control transfer at any packet boundary (no further IN, no status stage) and send the next "
+    "SETUP [USB 2.0 8.5.3: a SETUP always starts a new control transfer]; wLength >= 1; a request for a non-existing "
+    "descriptor is judged on its first IN only",
 ]
 
 MAX_TYPE = 15
@@ -62,10 +69,9 @@ def table_of(spec):
     return tab
 
 
-def build_handler(spec, mps, kind):
-    """Instantiate the handler exactly as StandardRequestHandler does (block / distributed / mux)."""
+def build_collection(spec, kind):
+    """DeviceDescriptorCollection of a spec; runtime descriptors only for the kinds that have them (mux / distmix)."""
     from usb_protocol.emitters.descriptors import DeviceDescriptorCollection
-    from luna.gateware.usb.request.standard import StandardRequestHandler
     from luna.gateware.usb.stream import USBInStreamInterface
     from luna.gateware.stream.generator import StreamSerializer
 
@@ -88,6 +94,13 @@ def build_handler(spec, mps, kind):
         data = desc_bytes(t, i, n)
         use_runtime = runtime and kind in ("mux", "distmix")
         coll.add_descriptor(factory(data) if use_runtime else data, index=i, descriptor_type=t)
+    return coll
+
+
+def build_handler(spec, mps, kind):
+    """Instantiate the handler exactly as StandardRequestHandler does (block / distributed / mux)."""
+    from luna.gateware.usb.request.standard import StandardRequestHandler
+    coll = build_collection(spec, kind)
     avoid = kind in ("dist", "distmix")
     srh = StandardRequestHandler(coll, max_packet_size=mps, avoid_blockram=avoid)
     h = srh.get_descriptor_handler_submodule()
@@ -287,7 +300,7 @@ def classify(res, kind, spec, where):
     return res
 
 
-def request_strategy(table, mps):
+def request_strategy(table, mps, present_percent=None):
     keys = sorted(table)
 
     def wlen_for(key):
@@ -304,6 +317,10 @@ def request_strategy(table, mps):
         st.tuples(st.integers(0, 255), st.integers(0, 255)),
     )
     key = st.one_of(present, present, present, absent).map(tuple)
+    if present_percent is not None:
+        # one_of flattens the nested alternatives of `absent`, which makes non-existing requests the majority; the
+        # whole-device sub wants mostly existing descriptors (sequences of transfers that deliver data)
+        key = st.integers(0, 99).flatmap(lambda n: present if n < present_percent else absent).map(tuple)
     return key.flatmap(lambda k: st.fixed_dictionaries(dict(
         type=st.just(k[0]), index=st.just(k[1]), wlen=wlen_for(k),
         retries=st.lists(weighted([(0, 5), (1, 2), (2, 1)]), max_size=4),
@@ -405,4 +422,420 @@ class GenCollectionSub(Sub):
         return Result(ok=True, nontrivial=nt, labels=tuple(sorted(labels)))
 
 
-SUBS = [PoolSub(), GenCollectionSub()]
+# ====================================================================================================================
+# Integration: the whole USB device (USBDevice + standard control endpoint) behind a bare UTMI bus, read by a host.
+# The continuation offset, the per-packet ACK bookkeeping and the start of each data stage live in
+# StandardRequestHandler / USBControlEndpoint, not in the descriptor handlers, so they are only visible here.
+# ====================================================================================================================
+from amaranth import Elaboratable, Module, Signal, Cat          # noqa: E402
+from lunaverif.ref import usb2 as U                            # noqa: E402
+
+# (pool, ep0 max packet size, handler kind) -- every handler kind and every packet size, long and short descriptors
+DEV_CONFIGS = [("P0", 8, "block"), ("P3", 64, "dist"), ("P1", 16, "dist"), ("P3", 32, "block"),
+               ("P2", 64, "block"), ("P4", 8, "dist"), ("M0", 8, "mux"), ("M1", 64, "distmix")]
+# (append only: replays store the index; each worker elaborates the configurations it meets, ~1 s each)
+
+DEV_RESPONSE_WINDOW = 18      # cycles the host waits for the start of a response (bare UTMI: 1 cycle = 1 FS bit time)
+J_STATE = 0b01
+
+#: standard requests other than GET_DESCRIPTOR used as surrounding traffic (never judged): (setup fields, data stage)
+OTHER_REQUESTS = {
+    "get_status": ((0x80, 0, 0, 0, 2), "in"),
+    "get_configuration": ((0x80, 8, 0, 0, 1), "in"),
+    "set_configuration": ((0x00, 9, 1, 0, 0), None),
+    "get_interface": ((0x81, 10, 0, 0, 1), "in"),          # not implemented by the standard handler: STALLed
+    "clear_feature": ((0x02, 1, 0, 0x81, 0), None),
+}
+
+
+class _CtrlDevice(Elaboratable):
+    """USBDevice(bus=UTMIInterface()) with only the standard control endpoint: `add_standard_control_endpoint(
+    descriptors, avoid_blockram=)` for the default 64-byte ep0, USBControlEndpoint(max_packet_size=) otherwise."""
+
+    def __init__(self, spec, mps, kind):
+        from luna.gateware.interface.utmi import UTMIInterface
+        self.utmi = UTMIInterface()
+        self.connect = Signal()
+        self.obs = Signal(9, name="c09_obs")                     # tx_valid | tx_data << 1 (one sampled word)
+        self.collection = build_collection(spec, kind)
+        self.mps, self.avoid = mps, kind in ("dist", "distmix")
+
+    def elaborate(self, platform):
+        from luna.gateware.usb.usb2.device import USBDevice
+        m = Module()
+        m.submodules.usb = usb = USBDevice(bus=self.utmi)
+        if self.mps == 64:
+            usb.add_standard_control_endpoint(self.collection, avoid_blockram=self.avoid)
+        else:
+            # what add_standard_control_endpoint does (device.py), with the endpoint's public max_packet_size argument
+            from luna.gateware.usb.usb2.control import USBControlEndpoint
+            ep = USBControlEndpoint(utmi=usb.utmi, max_packet_size=self.mps)
+            ep.add_standard_request_handlers(self.collection, avoid_blockram=self.avoid)
+            usb.add_endpoint(ep)
+        m.d.comb += [usb.connect.eq(self.connect), self.obs.eq(Cat(self.utmi.tx_valid, self.utmi.tx_data))]
+        return m
+
+
+def device_harness(spec, mps, kind):
+    dut = _CtrlDevice(spec, mps, kind)
+    u = dut.utmi
+    ins = dict(rx_active=u.rx_active, rx_valid=u.rx_valid, rx_data=u.rx_data, tx_ready=u.tx_ready,
+               line_state=u.line_state, connect=dut.connect)
+    return CycleHarness(dut, ins, dict(obs=dut.obs), domain="usb", period=1 / 12e6)
+
+
+class CtrlHost:
+    """A host reading descriptors from address 0 / endpoint 0, closed loop (it reacts to what the device sent, like a
+    real host: stops after a short packet or wLength bytes, re-issues IN after a lost ACK, may abandon a transfer at
+    any packet boundary and start the next SETUP).  Soundness as in DESIGN.md section 3: rx_valid => rx_active,
+    rx_active rises >= 1 cycle before the first byte, >= 2 idle cycles between packets, the host never transmits
+    while the device does, ACKs only a CRC-valid data packet, waits the whole response window."""
+
+    def __init__(self, requests, mps, tm, txr):
+        self.requests, self.mps = requests, mps
+        self.tm = list(tm) or [0]
+        self.txr = list(txr) or [1]
+        if not any(self.txr):
+            self.txr = self.txr + [1]
+        self.k = 0
+        self.t = 0
+        self.txr_prev = 0
+        self.records = []
+        self.error = None             # (signature, message): protocol-level misbehaviour seen by the host
+        self.finished = False
+        self.first = True
+        self.g = self._host()
+
+    def _tv(self):
+        v = self.tm[self.k % len(self.tm)]
+        self.k += 1
+        return v
+
+    def step(self, t, prev):
+        self.t = t
+        try:
+            if self.first:
+                self.first = False
+                h = next(self.g)
+            else:
+                h = self.g.send(prev)
+        except StopIteration:
+            self.finished = True
+            return None
+        upd = dict(h)
+        r = self.txr[t % len(self.txr)]
+        upd["tx_ready"] = r
+        self.txr_prev = r
+        return upd
+
+    class Stop(Exception):
+        pass
+
+    def _bad(self, sig, msg):
+        if self.error is None:
+            self.error = (sig, msg)
+        raise self.Stop()
+
+    def _idle(self, n):
+        for _ in range(n):
+            o = yield {"rx_active": 0, "rx_valid": 0}
+            if o.obs & 1:
+                self._bad("unsolicited-tx", f"device drives tx_valid in cycle {self.t - 1} although nothing awaits a response")
+
+    def _send(self, data):
+        for _ in range(1 + self._tv() % 3):
+            o = yield {"rx_active": 1, "rx_valid": 0}
+            self._no_tx(o)
+        n = len(data)
+        for i, b in enumerate(data):
+            o = yield {"rx_active": 1, "rx_valid": 1, "rx_data": b}
+            self._no_tx(o)
+            if i != n - 1:
+                for _ in range(self._tv() % 4):
+                    o = yield {"rx_active": 1, "rx_valid": 0}
+                    self._no_tx(o)
+        for _ in range(self._tv() % 3):
+            o = yield {"rx_active": 1, "rx_valid": 0}
+            self._no_tx(o)
+
+    def _no_tx(self, o):
+        if o.obs & 1:
+            self._bad("tx-during-rx", f"device drives tx_valid in cycle {self.t - 1} while a host packet is in progress")
+
+    def _response(self):
+        """-> parsed response dict (ref.usb2.parse) with the cycle stamps, or dict(kind='none')."""
+        o = None
+        for _ in range(DEV_RESPONSE_WINDOW):
+            o = yield {"rx_active": 0, "rx_valid": 0}
+            if o.obs & 1:
+                break
+        else:
+            return dict(kind="none")
+        start = self.t - 1
+        raw = []
+        limit = (self.mps + 8) * (len(self.txr) + 1) + 64
+        while o.obs & 1:
+            if self.txr_prev:
+                raw.append((o.obs >> 1) & 0xFF)
+            if self.t - start > limit:
+                self._bad("tx-stuck", f"tx_valid held for more than {limit} cycles from cycle {start}")
+            o = yield {}
+        r = dict(U.parse(raw))
+        r.update(t=(start, self.t - 2), raw=list(raw))
+        if "payload" in r:
+            r["payload"] = list(r["payload"])
+        return r
+
+    def _in(self, ack):
+        """IN transaction on ep0; NAKs are retried (bounded).  -> response"""
+        r = None
+        for _ in range(4):
+            yield from self._send(U.token(U.PID_IN, 0, 0))
+            r = yield from self._response()
+            if r["kind"] == "data" and ack:
+                yield from self._idle(2 + self._tv() % 3)
+                yield from self._send(U.handshake(U.PID_ACK))
+            yield from self._idle(2 + self._tv() % 5)
+            if not (r["kind"] == "handshake" and r["pid"] == U.PID_NAK):
+                break
+        return r
+
+    def _setup(self, fields):
+        yield from self._send(U.token(U.PID_SETUP, 0, 0))
+        yield from self._idle(2 + self._tv() % 4)
+        yield from self._send(U.data_packet(U.PID_DATA0, U.setup_payload(*fields)))
+        r = yield from self._response()
+        yield from self._idle(2 + self._tv() % 5)
+        return r
+
+    def _status_out(self):
+        yield from self._send(U.token(U.PID_OUT, 0, 0))
+        yield from self._idle(2 + self._tv() % 4)
+        yield from self._send(U.data_packet(U.PID_DATA1, b""))
+        r = yield from self._response()
+        yield from self._idle(2 + self._tv() % 5)
+        return r
+
+    def _host(self):
+        yield {"connect": 1, "line_state": J_STATE, "rx_active": 0, "rx_valid": 0, "rx_data": 0}
+        try:
+            yield from self._idle(3)
+            for rq in self.requests:
+                yield from self._request(rq)
+            yield from self._idle(8)
+        except self.Stop:
+            return
+
+    def _request(self, rq):
+        kind = rq.get("kind", "get_descriptor")
+        abandon = rq.get("abandon")                 # None, or the number of ACKed data packets after which the host walks away
+        rec = dict(rq=rq, kind=kind, stages=[], abandoned=False, t=self.t)
+        self.records.append(rec)
+        if kind != "get_descriptor":
+            fields, data = OTHER_REQUESTS[kind]
+            rec["setup"] = yield from self._setup(fields)
+            if abandon is not None and abandon == 0:
+                rec["abandoned"] = True
+                return
+            if data == "in":
+                r = yield from self._in(1)
+                if abandon is not None or r["kind"] != "data":
+                    rec["abandoned"] = True
+                    return
+                yield from self._status_out()
+            else:
+                yield from self._in(1)              # status stage: a ZLP, or a STALL
+            return
+        wl = rq["wlen"]
+        rec["setup"] = yield from self._setup((0x80, 6, (rq["type"] << 8) | rq["index"], rq.get("windex", 0), wl))
+        yield from self._idle(rq.get("gap", 3))
+        pos, got, k = 0, 0, 0
+        max_iter = min(wl, 320) // self.mps + 3
+        complete = False
+        while k < max_iter:
+            if abandon is not None and k >= abandon:
+                rec["abandoned"] = True
+                if rq.get("abandon_noack"):
+                    # one more IN whose data packet the host does not acknowledge (it gave up on the transfer)
+                    r = yield from self._in(0)
+                    rec["stages"].append(dict(pos=pos, attempt=0, resp=r, acked=False))
+                return
+            retries = rq["retries"][k % len(rq["retries"])] if rq.get("retries") else 0
+            r = None
+            for attempt in range(1 + retries):
+                ack = attempt == retries
+                r = yield from self._in(1 if ack else 0)
+                rec["stages"].append(dict(pos=pos, attempt=attempt, resp=r, acked=bool(ack and r["kind"] == "data")))
+                if r["kind"] != "data":
+                    break
+                yield from self._idle(rq.get("ack_delay", 3))
+            k += 1
+            if r["kind"] != "data":
+                return                               # STALL / silence / garbage: the transfer is over for the host
+            n = len(r["payload"])
+            got += n
+            if n < self.mps or got >= wl:
+                complete = True
+                break
+            pos += self.mps
+        rec["complete"] = complete
+        if rq.get("status", 1):
+            rec["status"] = yield from self._status_out()
+        else:
+            rec["abandoned"] = True
+
+
+def judge_device(records, table, mps):
+    """The statement, per GET_DESCRIPTOR request, over what the host received.  -> (fail Result | None, labels, nontrivial)"""
+    labels = set()
+    nontrivial = False
+    prev_abandoned = None
+    for rec in records:
+        was_after, prev_abandoned = prev_abandoned, None
+        if rec["abandoned"]:
+            acked = sum(1 for s_ in rec["stages"] if s_.get("acked"))
+            prev_abandoned = f"{rec['kind']} abandoned after {acked} acknowledged data packet(s)"
+        if rec["kind"] != "get_descriptor":
+            labels.add("other:" + rec["kind"])
+            continue
+        rq = rec["rq"]
+        key, wl = (rq["type"], rq["index"]), rq["wlen"]
+        hist = f" (directly after: {was_after})" if was_after else ""
+        what = f"GET_DESCRIPTOR type {key[0]} index {key[1]} wLength {wl} mps {mps}{hist}"
+        sfx = "-after-abandoned-transfer" if was_after else ""
+        if was_after:
+            labels.add("after-abandoned")
+        if rec["abandoned"]:
+            labels.add("abandoned")
+        if key not in table:
+            labels.add("absent")
+            if not rec["stages"]:
+                continue
+            r = rec["stages"][0]["resp"]
+            if r["kind"] in ("data", "data-badcrc", "data-short"):
+                return fail(f"{what}: descriptor does not exist but the device sent data {r['raw'][:10]} (cycles {r['t']})",
+                            signature="data-for-missing-descriptor" + sfx), labels, False
+            if not (r["kind"] == "handshake" and r["pid"] == U.PID_STALL):
+                return fail(f"{what}: descriptor does not exist but the first IN was answered with "
+                            f"{r['kind']} {r.get('raw', [])[:4]} instead of STALL",
+                            signature="no-stall-for-missing-descriptor" + sfx), labels, False
+            continue
+        desc = table[key]
+        L = len(desc)
+        total = min(wl, L)
+        labels.add("present")
+        got = 0
+        for s_ in rec["stages"]:
+            pos, r = s_["pos"], s_["resp"]
+            if pos < total:
+                exp = list(desc[pos:min(pos + mps, total)])
+            elif pos == total and total % mps == 0 and total < wl:
+                exp = []
+            else:
+                # the host only asks again after a full-size packet below wLength, so this position can only be
+                # reached after an earlier packet that already differed
+                return fail(f"{what}: host was led to position {pos} beyond the stage (total {total})",
+                            signature="stage-overrun" + sfx), labels, False
+            where = f"descriptor length {L}, position {pos} (attempt {s_['attempt']})"
+            if r["kind"] == "handshake" and r["pid"] == U.PID_STALL:
+                return fail(f"{what}: {where}: existing descriptor STALLed", signature="stall-for-existing-descriptor" + sfx), labels, False
+            if r["kind"] != "data":
+                sig = "no-zlp-at-descriptor-end" if not exp else ("no-packet" if r["kind"] == "none" else "malformed-packet")
+                return fail(f"{what}: {where}: expected {'a ZLP' if not exp else f'{len(exp)} bytes'}, device answered "
+                            f"{r['kind']} {r.get('raw', [])[:12]}", signature=sig + sfx), labels, False
+            if r["payload"] != exp:
+                sig = "data-mismatch"
+                if not exp:
+                    sig = "no-zlp-at-descriptor-end"
+                elif len(r["payload"]) != len(exp):
+                    sig = "wrong-packet-length"
+                return fail(f"{what}: {where}: sent {len(r['payload'])} bytes {r['payload'][:10]}, expected {len(exp)} bytes "
+                            f"{exp[:10]} (cycles {r['t']})", signature=sig + sfx), labels, False
+            if s_["acked"]:
+                got += len(exp)
+                if not exp:
+                    labels.add("zlp-terminated")
+            if s_["attempt"]:
+                labels.add("retry")
+        if "complete" in rec:
+            if not rec["complete"] or got != total:
+                return fail(f"{what}: stage ended after {got} of {total} bytes (descriptor length {L})",
+                            signature="stage-incomplete" + sfx), labels, False
+            if total % mps == 0:
+                labels.add("multiple-of-mps")
+            if wl < L:
+                labels.add("wlen<len")
+            if total % mps == 0 or wl < L or key[1] > 3:
+                nontrivial = True
+    return None, labels, nontrivial
+
+
+def device_request_strategy(table, mps):
+    base = request_strategy(table, mps, present_percent=80)
+    abandon = st.one_of(st.none(), st.none(), weighted([(1, 4), (2, 3), (3, 2), (0, 1), (5, 1)]))
+    gd = base.flatmap(lambda b: st.fixed_dictionaries(dict(
+        {k: st.just(v) for k, v in b.items()}, kind=st.just("get_descriptor"),
+        abandon=abandon, abandon_noack=weighted([(0, 3), (1, 1)]), status=weighted([(1, 5), (0, 1)]))))
+    other = st.fixed_dictionaries(dict(kind=st.sampled_from(sorted(OTHER_REQUESTS)),
+                                       abandon=st.one_of(st.none(), st.none(), st.integers(0, 1))))
+    return st.one_of(gd, gd, gd, gd, other)
+
+
+class DeviceSub(Sub):
+    name = "device"
+    budget = {"quick": 480, "thorough": 8000}
+    shrink_budget = 120
+    rule = ("whole device: USBDevice(bare UTMI, full speed) + standard control endpoint (add_standard_control_endpoint / "
+            "USBControlEndpoint(max_packet_size).add_standard_request_handlers, avoid_blockram False/True) for 8 (collection, ep0 packet size 8/16/32/64, handler block/distributed/mux/distributed-with-"
+            "runtime) configurations, address 0. A closed-loop host issues 2-6 control transfers: GET_DESCRIPTOR (existing / "
+            "near-miss non-existing, wLength around the length, multiples of mps, 255, 0xFFFF) read with IN tokens in "
+            "packet-size pieces with lost-ACK retries, each either completed with its status stage or ABANDONED (after 0-5 "
+            "acknowledged packets, optionally after one more un-acknowledged packet, or after the whole data stage without "
+            "status stage) and directly followed by the next SETUP; other standard requests (GET_STATUS, "
+            "GET/SET_CONFIGURATION, CLEAR_FEATURE, unsupported GET_INTERFACE; completed or abandoned) as surrounding "
+            "traffic; byte bubbles, rx_active lead/tail, PHY tx_ready patterns. Oracle (from the collection spec only): "
+            "every data packet received at host position p equals desc[p:min(p+mps, min(wLength,len))] (so each is <= mps), "
+            "a ZLP when the total is a non-zero multiple of mps below wLength, a completed stage delivered exactly "
+            "min(wLength,len) bytes, non-existing descriptors STALL the first IN without data, existing ones never STALL; "
+            "abandoned requests are judged on the packets they did read. Handshakes to SETUP/status stages and data PIDs "
+            "are not judged here. Non-trivial as in `handlers` (over completed requests).")
+
+    def setup(self):
+        self.h = {}
+
+    def harness(self, cfg):
+        if cfg not in self.h:
+            pool, mps, kind = DEV_CONFIGS[cfg]
+            self.h[cfg] = device_harness(POOL[pool], mps, kind)
+        return self.h[cfg]
+
+    def strategy(self):
+        def case(cfg):
+            pool, mps, kind = DEV_CONFIGS[cfg]
+            table = table_of(POOL[pool])
+            return st.fixed_dictionaries(dict(
+                cfg=st.just(cfg),
+                tm=st.one_of(st.just([0]), st.lists(weighted([(0, 4), (1, 2), (2, 1), (3, 1)]), min_size=1, max_size=7)),
+                txr=st.one_of(st.just([1]), st.just([1]), st.sampled_from([[1, 0], [1, 0, 0, 0], [1, 1, 0], [0, 0, 1]])),
+                rq=st.lists(device_request_strategy(table, mps), min_size=2, max_size=6)))
+        return st.integers(0, len(DEV_CONFIGS) - 1).flatmap(case)
+
+    def run(self, case):
+        pool, mps, kind = DEV_CONFIGS[case["cfg"]]
+        host = CtrlHost(case["rq"], mps, case.get("tm", [0]), case.get("txr", [1]))
+        self.harness(case["cfg"]).run_driver(host, 120000)
+        if not host.finished:
+            raise RuntimeError("host program did not finish")
+        res, labels, nt = judge_device(host.records, table_of(POOL[pool]), mps)
+        labels.add(kind)
+        labels.add(f"mps={mps}")
+        if res is None and host.error is not None:
+            res = fail(host.error[1], signature=host.error[0])
+        if res is not None:
+            res.signature = f"device-{kind}-{res.signature}"
+            res.msg = f"[whole device, {kind} handler, collection {pool}] " + res.msg
+            return res
+        return Result(ok=True, nontrivial=nt, labels=tuple(sorted(labels)))
+
+
+SUBS = [PoolSub(), GenCollectionSub(), DeviceSub()]
